@@ -14,11 +14,16 @@ import (
 // write-set monitor. (No interleavings are explored: if calls only read shared state and
 // write call-local state, every interleaving returns what the sequential call returns.)
 
+// everythingLabel: beyond the primitive's own reachable state, everything else that existed
+// before the calls (package-level variables, closure environments, tables) is read-only too.
+const everythingLabel = "state that existed before the calls (globals, closure environments; shared between concurrent calls)"
+
 func CheckAEADShared(a AEAD) {
 	n := verifrt.Freeze(a, "state shared between concurrent calls (AEAD primitive)")
 	verifrt.Assert(n > 0, "the primitive has state to freeze")
 	pt := verifrt.Bytes("pt", verifrt.Choice("n", 3))
 	ad := verifrt.Bytes("ad", 1)
+	verifrt.FreezeAll(everythingLabel)
 	c1, e1 := a.Encrypt(pt, ad)
 	c2, e2 := a.Encrypt(pt, ad)
 	verifrt.Assert(e1 == nil && e2 == nil, "Encrypt succeeds")
@@ -35,6 +40,7 @@ func CheckMACShared(m MAC) {
 	verifrt.Assert(n > 0, "the primitive has state to freeze")
 	d1 := verifrt.Bytes("d1", verifrt.Choice("n1", 3))
 	d2 := verifrt.Bytes("d2", verifrt.Choice("n2", 3))
+	verifrt.FreezeAll(everythingLabel)
 	t1, e1 := m.ComputeMAC(d1)
 	t2, e2 := m.ComputeMAC(d2)
 	t1b, e3 := m.ComputeMAC(d1)
@@ -52,6 +58,7 @@ func CheckPRFShared(p PRF, outLen int) {
 	verifrt.Assert(n > 0, "the primitive has state to freeze")
 	x1 := verifrt.Bytes("x1", verifrt.Choice("n1", 3))
 	x2 := verifrt.Bytes("x2", verifrt.Choice("n2", 3))
+	verifrt.FreezeAll(everythingLabel)
 	o1, e1 := p.ComputePRF(x1, uint32(outLen))
 	o2, e2 := p.ComputePRF(x2, uint32(outLen))
 	o1b, e3 := p.ComputePRF(x1, uint32(outLen))
@@ -69,6 +76,7 @@ func CheckDAEADShared(d DAEAD, maxPT int) {
 	p2 := verifrt.Bytes("p2", verifrt.Choice("n2", 3))
 	a1 := verifrt.Bytes("a1", 1)
 	a2 := verifrt.Bytes("a2", verifrt.Choice("m2", 2))
+	verifrt.FreezeAll(everythingLabel)
 	c1, e1 := d.EncryptDeterministically(p1, a1)
 	c2, e2 := d.EncryptDeterministically(p2, a2)
 	c1b, e3 := d.EncryptDeterministically(p1, a1)
@@ -89,6 +97,7 @@ func CheckSignShared(s Signer, v Verifier) {
 	verifrt.Assert(n > 0 && m > 0, "the primitives have state to freeze")
 	d1 := verifrt.Bytes("d1", verifrt.Choice("n1", 3))
 	d2 := verifrt.Bytes("d2", verifrt.Choice("n2", 3))
+	verifrt.FreezeAll(everythingLabel)
 	s1, e1 := s.Sign(d1)
 	s2, e2 := s.Sign(d2)
 	verifrt.Assert(e1 == nil && e2 == nil, "Sign succeeds")
